@@ -429,6 +429,9 @@ func (fr *frame) visit(instr ssa.Instruction) cont {
 			m.gStores = append(m.gStores, g.Name())
 		}
 		p := fr.get(instr.Addr).(*Value)
+		if m.trackGlobals && m.ownedCells[p] != "" && !m.isHarnessFn(fr.fn) {
+			m.gStores = append(m.gStores, "(object reachable from) "+m.ownedCells[p])
+		}
 		if p == nil {
 			m.rtPanic("invalid memory address or nil pointer dereference")
 		}
@@ -546,6 +549,9 @@ func (fr *frame) visit(instr ssa.Instruction) cont {
 		mp := fr.get(instr.Map).(*Map)
 		if mp == nil {
 			m.rtPanic("assignment to entry in nil map")
+		}
+		if m.trackGlobals && m.ownedMaps[mp] != "" && !m.isHarnessFn(fr.fn) {
+			m.gStores = append(m.gStores, "(map reachable from) "+m.ownedMaps[mp])
 		}
 		m.mapSet(mp, fr.get(instr.Key), copyVal(fr.get(instr.Value)))
 
@@ -724,4 +730,62 @@ func (m *Machine) isHarnessFn(fn *ssa.Function) bool {
 	}
 	m.harnessFn[fn] = v
 	return v
+}
+
+// markOwned records every cell and map reachable from the package-level variables of
+// the code under test, so that stores into shared state are seen even when they do not
+// target the variable itself (a package-level cache map, a shared struct).
+func (m *Machine) markOwned() {
+	m.ownedCells = map[*Value]string{}
+	m.ownedMaps = map[*Map]string{}
+	var walk func(v Value, name string, depth int)
+	walk = func(v Value, name string, depth int) {
+		if depth > 8 {
+			return
+		}
+		switch v := v.(type) {
+		case *Value:
+			if v == nil || m.ownedCells[v] != "" {
+				return
+			}
+			m.ownedCells[v] = name
+			walk(*v, name, depth+1)
+		case *Map:
+			if v == nil || m.ownedMaps[v] != "" {
+				return
+			}
+			m.ownedMaps[v] = name
+			for _, e := range v.Entries {
+				walk(e.k, name, depth+1)
+				walk(e.v, name, depth+1)
+			}
+		case Struct:
+			for i := range v {
+				m.ownedCells[&v[i]] = name
+				walk(v[i], name, depth+1)
+			}
+		case Array:
+			for i := range v {
+				m.ownedCells[&v[i]] = name
+				walk(v[i], name, depth+1)
+			}
+		case []Value:
+			for i := range v {
+				m.ownedCells[&v[i]] = name
+				walk(v[i], name, depth+1)
+			}
+		case Iface:
+			walk(v.V, name, depth+1)
+		case *Closure:
+			for _, e := range v.Env {
+				walk(e, name, depth+1)
+			}
+		}
+	}
+	for g, cell := range m.globals {
+		if m.inRoot(g.Pkg) && !strings.HasPrefix(g.Name(), "vHarnesses") {
+			// the cell itself is covered by the direct check; walk what it holds
+			walk(*cell, g.Name(), 0)
+		}
+	}
 }
